@@ -17,9 +17,19 @@ pub struct TotalCase {
     pub spec: CmdSpec,
     #[serde(with = "crate::util::argv_hex")]
     pub argv: Vec<Vec<u8>>,
+    /// the same `Command` value has parsed the line once before it is handed to the engine
+    #[serde(default)]
+    pub used_first: bool,
 }
 
 pub struct Total;
+
+/// The definition after it has been used for one parse (lazily built along the path the parse took).
+fn used_once(cmd: &clap::Command, line: Vec<std::ffi::OsString>) -> clap::Command {
+    let mut used = cmd.clone();
+    let _ = catch(|| used.try_get_matches_from_mut(line).map(|_| ()).map_err(|_| ()));
+    used
+}
 
 fn run_complete(cmd: &clap::Command, argv: &[Vec<u8>], index: usize) -> Result<Result<Vec<(String, bool, Option<String>)>, String>, PanicInfo> {
     let args: Vec<std::ffi::OsString> = argv.iter().map(|b| os(b)).collect();
@@ -66,13 +76,20 @@ impl Property for Total {
         spec.settings.multicall = false;
         let mut argv = gen_argv_broad(t, &spec);
         argv.truncate(24);
-        TotalCase { spec, argv }
+        let used_first = t.chance(1, 4);
+        TotalCase { spec, argv, used_first }
     }
     fn run(&self, case: &TotalCase, ctx: &mut Ctx) -> Verdict {
         let cmd = match build_checked(&case.spec) {
             Built::Ok(c) => c,
             Built::Invalid(_) => return Verdict::Discard("invalid-config"),
             Built::Panic(p) => return Verdict::Fail(Failure::from_panic(&p)),
+        };
+        let cmd = if case.used_first {
+            ctx.label("completed-after-a-parse");
+            used_once(&cmd, case.argv.iter().map(|b| os(b)).collect())
+        } else {
+            cmd
         };
         let mut some_candidates = false;
         for index in 0..=case.argv.len() + 1 {
@@ -133,6 +150,9 @@ pub struct ValidCase {
     /// names along the path (canonical), to find the level
     pub path: Vec<String>,
     pub word: String,
+    /// the same `Command` value has parsed `prog <path...>` once before it is handed to the engine
+    #[serde(default)]
+    pub used_first: bool,
 }
 
 pub struct Valid;
@@ -208,6 +228,15 @@ fn run_valid(case: &ValidCase, ctx: &mut Ctx) -> Verdict {
     argv.extend(case.prefix.iter().map(|s| s.as_bytes().to_vec()));
     argv.push(case.word.as_bytes().to_vec());
     let index = argv.len() - 1;
+    let cmd = if case.used_first {
+        ctx.label("completed-after-a-parse");
+        let mut line: Vec<std::ffi::OsString> = if nbn { vec![] } else { vec!["prog".into()] };
+        // (walk part of the way only: the levels below the last one visited are still unbuilt)
+        line.extend(case.path.iter().take(case.path.len().saturating_sub(1).max(1)).map(|s| s.into()));
+        used_once(&cmd, line)
+    } else {
+        cmd
+    };
     let cands = match run_complete(&cmd, &argv, index) {
         Err(p) => return Verdict::Fail(Failure::from_panic(&p)),
         Ok(Err(e)) => return Verdict::fail("engine:no-completion-at-cursor", format!("{case:?}: engine returned {e:?}")),
@@ -519,7 +548,8 @@ impl Property for Valid {
             // prefix of any legal token, so nothing is claimed about extending it)
             _ => (*t.pick(&["zz", "--zz", "x", "q-"])).to_owned(),
         };
-        ValidCase { spec, prefix, path, word }
+        let used_first = t.chance(1, 4);
+        ValidCase { spec, prefix, path, word, used_first }
     }
     fn run(&self, case: &ValidCase, ctx: &mut Ctx) -> Verdict {
         run_valid(case, ctx)
